@@ -105,11 +105,13 @@ def allSame : List α → Bool
   | [] => true
   | x :: xs => xs.all fun y => eqB (nabs y) (nabs x)
 
-/-- `np.all(np.diff(idata["io"]) > 0)` needs a sequence of numbers -/
+/-- `np.all(np.diff(np.abs(idata["io"])) > 0)` needs a sequence of numbers: `np.abs` of anything that is not
+    numeric is a TypeError, `np.diff` of a single number a ValueError -/
 def ioAxis (io : PV α) : Except Err (List α) :=
   match io with
   | .list l => l.mapM (numArg "io")
-  | _ => throw (.value "diff requires input that is at least one dimensional")
+  | x => if x.isNumber then throw (.value "diff requires input that is at least one dimensional")
+         else throw (.type "bad operand type for abs()")
 
 /-- `_check_interp(idata, z)`, the range check `chk` the caller applies to the table values, then the
     choice and construction of `_Interp1d` / `_Interp2d`; also returns the flat list of table values.
